@@ -402,6 +402,11 @@ def generate(rng, tier, i):
         # domain whose lower corner is not the origin (integer or half-integer offset,
         # positive or negative)
         r["origin"] = [float(v) for v in rng.integers(-4, 5, size=r["dim"]) / 2.0]
+        if rng.random() < 0.4:
+            keep = int(rng.integers(0, r["dim"]))           # offset along one axis only
+            r["origin"] = [v if m == keep else 0.0 for m, v in enumerate(r["origin"])]
+            if r["origin"][keep] == 0.0:
+                r["origin"][keep] = 1.5
     return {"recipe": r}
 
 
@@ -429,6 +434,13 @@ def floor(tier):
     for k, r in enumerate(gm.floor_recipes(meshes=("cartesian",))):
         if k % 2 == 0:
             out.append({"recipe": gm.tensor_variant(np.random.default_rng(50 + k), r)})
+    # offset in a single coordinate direction only (incl. only z in 3-D)
+    for k, r in enumerate(gm.floor_recipes(meshes=("cartesian",))):
+        for ax in range(r["dim"]):
+            if (k + ax) % 2 == 0:
+                o = [0.0] * r["dim"]
+                o[ax] = 0.5 + ax
+                out.append({"recipe": dict(r, origin=o)})
     # offset domains (lower corner not in the origin)
     for k, r in enumerate(gm.floor_recipes()):
         if k % 3 == 1 or r["dim"] == 3 and len(r["fractures"]) == 1:
